@@ -62,6 +62,7 @@ type c11Fake struct {
 
 	failConnect, failBegin, failCommit, failRollback bool
 	armed                                            *c11Fault // fails the next Exec/Query reaching the driver
+	armAtPrepare                                     bool      // ... or, when set, the next Prepare
 
 	connectErr, beginErr, commitErr, rollbackErr *c11Fault
 
@@ -108,7 +109,25 @@ func (f *c11Fake) takeArmed() *c11Fault {
 	f.mu.Lock()
 	defer f.mu.Unlock()
 	e := f.armed
-	f.armed = nil
+	f.armed, f.armAtPrepare = nil, false
+	return e
+}
+
+// armPrepare: the next Prepare reaching the driver fails with e.
+func (f *c11Fake) armPrepare(e *c11Fault) {
+	f.mu.Lock()
+	f.armed, f.armAtPrepare = e, true
+	f.mu.Unlock()
+}
+
+func (f *c11Fake) takeArmedAtPrepare() *c11Fault {
+	f.mu.Lock()
+	defer f.mu.Unlock()
+	if !f.armAtPrepare {
+		return nil
+	}
+	e := f.armed
+	f.armed, f.armAtPrepare = nil, false
 	return e
 }
 
@@ -184,7 +203,12 @@ func (c *c11Conn) prefix(f *c11Fake) string {
 	return ""
 }
 
-func (c *c11Conn) Prepare(q string) (driver.Stmt, error) { return &c11Stmt{c: c, q: q}, nil }
+func (c *c11Conn) Prepare(q string) (driver.Stmt, error) {
+	if e := c.fake().takeArmedAtPrepare(); e != nil {
+		return nil, e
+	}
+	return &c11Stmt{c: c, q: q}, nil
+}
 func (c *c11Conn) Close() error                          { return nil }
 func (c *c11Conn) Begin() (driver.Tx, error) {
 	return c.BeginTx(context.Background(), driver.TxOptions{})
@@ -342,8 +366,9 @@ func VerifC11SetLog(mode string) (restore func()) {
 type C11Stmt struct {
 	K string `json:"k"`           // exec | query | prep (prepare + exec on the prepared statement)
 	F bool   `json:"f,omitempty"` // the driver fails this statement
+	P bool   `json:"p,omitempty"` // prep with f only: the driver fails the Prepare (not the Exec on the prepared statement)
 	R string `json:"r,omitempty"` // body's reaction when this statement returns an error (driver fault or done context): ret | ign ("" = ign) | panic
-	A string `json:"a,omitempty"` // exec only - shape of query text and arguments: "" | none | many | dollar | pct | strs | mismatch | odd | tnil (see c11ExecShape)
+	A string `json:"a,omitempty"` // exec, query, prep - shape of query text and arguments: "" | none | many | dollar | pct | strs | mismatch | odd | tnil (see c11ExecShape)
 }
 
 // Statement kinds beyond exec | query | prep (re-entrant use of the enclosing connection from inside the body):
@@ -449,11 +474,27 @@ func c11BodyError(k string, w bool) error {
 }
 
 // C11TxEntries are the entry points of the in-package unit.
-var C11TxEntries = []string{"transact", "transactctx", "transactctx", "transactctx", "onconn", "newconn", "newconn2"}
+var C11TxEntries = []string{"transact", "transactctx", "transactctx", "transactctx", "onconn", "newconn", "newconn2", "nodriver", "mysqlbad"}
+
+// Connections whose provider (the function that hands out the *sql.DB) fails:
+//   - nodriver: NewConn with a driver name nobody registered (sql.Open fails at every call);
+//   - mysqlbad: NewMySQL - the only exported constructor that passes an Option, the
+//     MySQL-specific acceptable-error filter of the breaker - with a data source name
+//     the MySQL driver cannot parse (no network involved).
+//
+// For Transact this is a fault before Begin: no transaction exists.
+const (
+	c11NoDriverName = "verif-c11-driver-nobody-registered"
+	c11NoDriverDSN  = "user:secret@verif-c11-no-driver" // a name of its own: opened *sql.DBs are cached per data source name
+	c11BadMySQLDSN  = "user:secret@verif-c11-not-a-mysql-dsn"
+)
+
+// c11ProviderFails: the entry point's connection cannot obtain its *sql.DB.
+func c11ProviderFails(e string) bool { return e == "nodriver" || e == "mysqlbad" }
 
 // c11CtxEntry: the entry point takes the caller's context.
 func c11CtxEntry(e string) bool {
-	return e == "transactctx" || e == "onconn" || e == "newconn" || e == "newconn2" || e == "cachedctx"
+	return e == "transactctx" || e == "onconn" || e == "newconn" || e == "newconn2" || e == "cachedctx" || c11ProviderFails(e)
 }
 
 // VerifC11GenTx draws a transaction case for one of the given entry points.
@@ -479,6 +520,12 @@ func VerifC11GenTx(entries []string) func(rt *rapid.T) C11TxCase {
 			}
 			if s.K == "exec" && rapid.IntRange(0, 2).Draw(rt, "shaped") == 1 {
 				s.A = rapid.SampledFrom([]string{"none", "many", "dollar", "pct", "strs", "mismatch", "odd", "tnil"}).Draw(rt, "shape")
+			}
+			if (s.K == "query" || s.K == "prep") && rapid.IntRange(0, 3).Draw(rt, "shaped-qp") == 2 {
+				s.A = rapid.SampledFrom([]string{"none", "many", "dollar", "mismatch", "mismatch", "odd", "tnil"}).Draw(rt, "shape-qp")
+			}
+			if s.K == "prep" && s.F && rapid.Bool().Draw(rt, "fault-at-prepare") {
+				s.P = true
 			}
 			if nested || !c11ShapeSafe(s.A) {
 				s.R = rapid.SampledFrom([]string{"ret", "ret", "ign", "panic"}).Draw(rt, "reaction")
@@ -545,6 +592,14 @@ func c11RunTx(entry string, ctx context.Context, db *sql.DB, fn func(context.Con
 		conn := NewConn(c11DriverName, c11SharedDSN)
 		bind(conn)
 		return conn.TransactCtx(ctx, fn)
+	case "nodriver":
+		conn := NewConn(c11NoDriverName, c11NoDriverDSN)
+		bind(conn)
+		return conn.TransactCtx(ctx, fn)
+	case "mysqlbad":
+		conn := NewMySQL(c11BadMySQLDSN)
+		bind(conn)
+		return conn.TransactCtx(ctx, fn)
 	}
 	panic("c11: unknown entry " + entry)
 }
@@ -602,7 +657,7 @@ func VerifC11InterpTx(c C11TxCase, run C11Runner) (v kit.Verdict) {
 	case "badconn1":
 		f.beginBadConn = 1
 	}
-	beginFails := c.FBegin == "begin" || c.FBegin == "connect" || c.FBegin == "badconn"
+	beginFails := c.FBegin == "begin" || c.FBegin == "connect" || c.FBegin == "badconn" || c11ProviderFails(c.Entry)
 	var db *sql.DB
 	var otherFake *c11Fake
 	otherWrong := ""
@@ -700,7 +755,11 @@ func VerifC11InterpTx(c C11TxCase, run C11Runner) (v kit.Verdict) {
 			var err error
 			nested := st.K == "nnil" || st.K == "nerr"
 			if st.F && !nested {
-				f.arm(stmtErrs[i])
+				if st.K == "prep" && st.P {
+					f.armPrepare(stmtErrs[i])
+				} else {
+					f.arm(stmtErrs[i])
+				}
 			}
 			before := len(f.snapshot())
 			var wantDelta []string // what the driver must have seen if the call returned nil
@@ -754,9 +813,14 @@ func VerifC11InterpTx(c C11TxCase, run C11Runner) (v kit.Verdict) {
 				var dst struct {
 					A int64 `db:"a"`
 				}
-				if i%2 == 0 {
+				switch q, args := c11ExecShape(st.A, i); {
+				case st.A != "" && i%2 == 0:
+					err = s.QueryRowCtx(ctx, &dst, q, args...)
+				case st.A != "":
+					err = s.QueryRow(&dst, q, args...)
+				case i%2 == 0:
 					err = s.QueryRowCtx(ctx, &dst, "select a from t where id = ?", i)
-				} else {
+				default:
 					err = s.QueryRow(&dst, "select a from t limit 1")
 				}
 				if err == nil && dst.A != 41 {
@@ -765,16 +829,20 @@ func VerifC11InterpTx(c C11TxCase, run C11Runner) (v kit.Verdict) {
 			case "prep":
 				wantDelta = []string{"exec"}
 				var ps StmtSession
+				pq, pargs := "update t set a = ? where id = 1", []any{i}
+				if st.A != "" {
+					pq, pargs = c11ExecShape(st.A, i)
+				}
 				if i%2 == 0 {
-					ps, err = s.PrepareCtx(ctx, "update t set a = ? where id = 1")
+					ps, err = s.PrepareCtx(ctx, pq)
 				} else {
-					ps, err = s.Prepare("update t set a = ? where id = 1")
+					ps, err = s.Prepare(pq)
 				}
 				if err == nil {
 					if i%2 == 0 {
-						_, err = ps.ExecCtx(ctx, i)
+						_, err = ps.ExecCtx(ctx, pargs...)
 					} else {
-						_, err = ps.Exec(i)
+						_, err = ps.Exec(pargs...)
 					}
 					_ = ps.Close()
 				}
@@ -896,8 +964,13 @@ func VerifC11InterpTx(c C11TxCase, run C11Runner) (v kit.Verdict) {
 			classes = append(classes, "reentrant:exec-on-enclosing-conn")
 		case st.K == "nnil" || st.K == "nerr":
 			classes = append(classes, "reentrant:nested-transact")
+		case st.A != "" && st.K != "exec":
+			classes = append(classes, "args:"+st.K+"/"+st.A)
 		case st.A != "":
 			classes = append(classes, "args:"+st.A)
+		}
+		if st.K == "prep" && st.F && st.P {
+			classes = append(classes, "stmt-fault-at-prepare")
 		}
 	}
 	if c.Out == "panic" && c.PanicV == "int" {
@@ -925,7 +998,11 @@ func VerifC11InterpTx(c C11TxCase, run C11Runner) (v kit.Verdict) {
 		classes = append(classes, "begin:first-attempt-on-dead-connection")
 	}
 	if beginFails {
-		classes = append(classes, "begin-fault:"+c.FBegin)
+		if c11ProviderFails(c.Entry) {
+			classes = append(classes, "begin-fault:no-database-handle")
+		} else {
+			classes = append(classes, "begin-fault:"+c.FBegin)
+		}
 		v.NonTrivial = true
 	} else if runs > 0 {
 		classes = append(classes, "outcome:"+outcome)
@@ -1283,6 +1360,19 @@ func c11EnumerateTx(maxStmts, maxCtxStmts int) func(yield func(C11TxCase) bool) 
 				extra = append(extra, C11Stmt{K: "exec", A: a, R: r})
 			}
 		}
+		for _, r := range []string{"ret", "ign", "panic"} {
+			extra = append(extra, C11Stmt{K: "prep", F: true, P: true, R: r})
+			for _, k := range []string{"query", "prep"} {
+				for _, a := range []string{"mismatch", "odd", "tnil"} {
+					extra = append(extra, C11Stmt{K: k, A: a, R: r})
+				}
+			}
+		}
+		for _, k := range []string{"query", "prep"} {
+			for _, a := range []string{"none", "many", "dollar"} {
+				extra = append(extra, C11Stmt{K: k, A: a}, C11Stmt{K: k, A: a, F: true, R: "ret"})
+			}
+		}
 		extra = append(extra, C11Stmt{K: "outer"})
 		for _, a := range []string{"none", "many", "dollar", "pct", "strs"} {
 			extra = append(extra, C11Stmt{K: "exec", A: a}, C11Stmt{K: "exec", A: a, F: true, R: "ret"})
@@ -1290,6 +1380,20 @@ func c11EnumerateTx(maxStmts, maxCtxStmts int) func(yield func(C11TxCase) bool) 
 		for _, st := range extra {
 			if !emit([]C11Stmt{st}, []string{"transact", "transactctx", "onconn", "newconn", "newconn2"}, "") {
 				return
+			}
+		}
+		// connections without a database handle: every outcome, context state and Commit/Rollback script
+		for _, e := range []string{"nodriver", "mysqlbad"} {
+			for _, cx := range []string{"", "pre", "dead", "b0"} {
+				for _, o := range outs {
+					for _, stmts := range [][]C11Stmt{nil, {{K: "exec"}}, {{K: "query", F: true, R: "ret"}}} {
+						for _, fc := range []bool{false, true} {
+							if !yield(C11TxCase{Entry: e, Cx: cx, Stmts: stmts, Out: o.o, PanicV: o.pv, FCommit: fc, FRollback: !fc}) {
+								return
+							}
+						}
+					}
+				}
 			}
 		}
 		for _, fb := range []string{"badconn", "badconn1"} {
@@ -1336,7 +1440,7 @@ func TestVerif_C11_txexhaustive(t *testing.T) {
 // C11Field is a destination field: a leaf (T, optional db tag G) or an
 // embedded struct (E, by pointer when P).
 type C11Field struct {
-	T string     `json:"t,omitempty"` // i64 int str f64 bool byt pi64 pstr nstr ni64
+	T string     `json:"t,omitempty"` // i64 int i32 u64 str f64 bool byt tm pi64 ppi64 pstr nstr ni64
 	G string     `json:"g,omitempty"` // db tag ("" = untagged)
 	E []C11Field `json:"e,omitempty"`
 	P bool       `json:"p,omitempty"`
@@ -1345,9 +1449,11 @@ type C11Field struct {
 // C11Col is a result-set column: name, value kind, value id, NULL rows.
 type C11Col struct {
 	N string `json:"n"`
-	T string `json:"t"`           // i64 str f64 bool byt
+	T string `json:"t"`           // i64 str f64 bool byt time
 	U int    `json:"u"`           // makes values distinct between columns
 	Z []int  `json:"z,omitempty"` // rows in which the value is NULL
+	X []int  `json:"x,omitempty"` // rows in which the value is a text that is no number / no boolean ("not-a-number-r<row>"; i64 f64 bool columns)
+	Y []int  `json:"y,omitempty"` // rows in which the ordinary value is delivered as text bytes (e.g. []byte("100001"), as a text-protocol driver does; i64 f64 bool columns)
 	B bool   `json:"b,omitempty"` // strings delivered as []byte (as the MySQL driver does)
 	M string `json:"m,omitempty"` // magnitude of the values: "" ordinary | zero | max | min | p31 | p53 | long (str/byt of L bytes)
 	L int    `json:"l,omitempty"` // length for M = long
@@ -1361,11 +1467,13 @@ func c11LongString(n, row, u int) string {
 
 // C11RowsCase is one query: session kind, call form, destination, result set.
 type C11RowsCase struct {
-	Sess    string     `json:"s"`              // conn | tx | stmt | txstmt | rawtx (ext: cached)
+	Sess    string     `json:"s"`              // conn | tx | stmt | txstmt | rawtx (ext: cached) | nodb nodbstmt nodbmysql (a connection that cannot obtain its *sql.DB, see c11ProviderFails)
 	Ctx     bool       `json:"x,omitempty"`    // ...Ctx form
 	Cd      bool       `json:"cd,omitempty"`   // the context handed to the ...Ctx form is already cancelled
 	Log     string     `json:"lg,omitempty"`   // package logging switches: "" both on | off (sqlx.DisableLog) | stmtoff (sqlx.DisableStmtLog)
 	QF      bool       `json:"qf,omitempty"`   // the driver fails the query
+	PF      bool       `json:"pf,omitempty"`   // with qf on a prepared-statement session (stmt, txstmt): the driver fails the Prepare instead
+	AS      string     `json:"as,omitempty"`   // arguments handed to the query call for its one placeholder: "" one (ordinary) | two (one too many) | odd (a map: no SQL value)
 	It      int        `json:"it,omitempty"`   // k+1: the query succeeds but the driver's row iteration fails after k rows (k < n, or 0 when n = 0); 0 = no such fault
 	Named   int        `json:"nt,omitempty"`   // k+1: the destination is the k-th COMPILED type of c11NamedFamily (f repeats its description); 0: built with reflect.StructOf
 	Pre     []int      `json:"pre,omitempty"`  // members of c11NamedFamily queried first in this order (result ignored): all print as "sqlx.row"
@@ -1379,13 +1487,14 @@ type C11RowsCase struct {
 	Cols    []C11Col   `json:"c"`
 	NRows   int        `json:"n"`
 	Shape   string     `json:"shape"`           // generator's label (informational)
+	Unsc    string     `json:"unsc,omitempty"`  // generator's label of the per-row value that may not fit its destination: null | text | numtext (informational; the rows are in c[].z/x/y)
 	Names   string     `json:"names,omitempty"` // generator's label of the spelling of tags / column names (informational; the names themselves are in f and c)
 }
 
 var c11LeafKinds = map[string]string{
-	"i64": "i64", "int": "i64", "pi64": "i64", "ni64": "i64",
+	"i64": "i64", "int": "i64", "pi64": "i64", "ni64": "i64", "i32": "i64", "u64": "i64", "ppi64": "i64",
 	"str": "str", "pstr": "str", "nstr": "str",
-	"f64": "f64", "bool": "bool", "byt": "byt",
+	"f64": "f64", "bool": "bool", "byt": "byt", "tm": "time",
 }
 
 var c11LeafTypes = map[string]reflect.Type{
@@ -1393,6 +1502,37 @@ var c11LeafTypes = map[string]reflect.Type{
 	"f64": reflect.TypeOf(float64(0)), "bool": reflect.TypeOf(false), "byt": reflect.TypeOf([]byte(nil)),
 	"pi64": reflect.TypeOf((*int64)(nil)), "pstr": reflect.TypeOf((*string)(nil)),
 	"nstr": reflect.TypeOf(sql.NullString{}), "ni64": reflect.TypeOf(sql.NullInt64{}),
+	"i32": reflect.TypeOf(int32(0)), "u64": reflect.TypeOf(uint64(0)), "tm": reflect.TypeOf(time.Time{}),
+	"ppi64": reflect.TypeOf((**int64)(nil)),
+}
+
+// c11Fits: the (ordinary, integer) value of (col,row) is inside the range of a
+// leaf of type t. Whether a value outside the range can be copied is not stated.
+func c11Fits(t string, col C11Col, row int) bool {
+	if (t != "i32" && t != "u64") || col.T != "i64" || !c11OrdinaryValue(col, row) {
+		return true
+	}
+	x, ok := c11DriverValue(col, row).(int64)
+	if !ok {
+		return true
+	}
+	if t == "i32" {
+		return x >= math.MinInt32 && x <= math.MaxInt32
+	}
+	return x >= 0
+}
+
+// c11AllFit: every row's value of col is inside the range of a leaf of type t.
+func c11AllFit(t string, col C11Col, nrows int) bool {
+	if (t != "i32" && t != "u64") || col.M == "" || col.M == "zero" {
+		return true // ordinary values are small positive numbers
+	}
+	for r := 0; r < nrows; r++ {
+		if !c11Fits(t, col, r) {
+			return false
+		}
+	}
+	return true
 }
 
 func c11Nullable(t string) bool { return t == "nstr" || t == "ni64" }
@@ -1495,11 +1635,32 @@ func c11Norm(t string, fv reflect.Value) any {
 			return nil
 		}
 		return string(fv.Bytes())
+	case "i32":
+		if fv.Int() == 0 {
+			return nil
+		}
+		return fv.Int()
+	case "u64":
+		if fv.Uint() == 0 {
+			return nil
+		}
+		return int64(fv.Uint())
+	case "tm":
+		tv := fv.Interface().(time.Time)
+		if tv.IsZero() {
+			return nil
+		}
+		return tv.UTC().Format(time.RFC3339Nano)
 	case "pi64":
 		if fv.IsNil() {
 			return nil
 		}
 		return c11Norm("i64", fv.Elem())
+	case "ppi64":
+		if fv.IsNil() {
+			return nil
+		}
+		return c11Norm("pi64", fv.Elem())
 	case "pstr":
 		if fv.IsNil() {
 			return nil
@@ -1536,10 +1697,33 @@ func c11IsNull(col C11Col, row int) bool {
 	return false
 }
 
+func c11InRows(rows []int, row int) bool {
+	for _, r := range rows {
+		if r == row {
+			return true
+		}
+	}
+	return false
+}
+
+// c11OrdinaryValue: the value of (col,row) is an ordinary value of the column's
+// kind (not NULL, not a text in a numeric / boolean column).
+func c11OrdinaryValue(col C11Col, row int) bool {
+	return !c11IsNull(col, row) && !c11InRows(col.X, row) && !c11InRows(col.Y, row)
+}
+
 // c11DriverValue is what the fake driver serves for (column, row).
 func c11DriverValue(col C11Col, row int) driver.Value {
 	if c11IsNull(col, row) {
 		return nil
+	}
+	if c11InRows(col.X, row) {
+		return fmt.Sprintf("not-a-number-r%d", row)
+	}
+	if c11InRows(col.Y, row) {
+		plain := col
+		plain.X, plain.Y = nil, nil
+		return []byte(fmt.Sprint(c11DriverValue(plain, row)))
 	}
 	n := int64(100000*(row+1) + col.U + 1)
 	switch col.T {
@@ -1594,6 +1778,8 @@ func c11DriverValue(col C11Col, row int) driver.Value {
 			return []byte(c11LongString(col.L, row, col.U))
 		}
 		return []byte(fmt.Sprintf("b%du%d", row, col.U))
+	case "time":
+		return time.Unix(1700000000+n, int64(col.U)*1000).UTC()
 	}
 	panic("c11: column kind " + col.T)
 }
@@ -1618,6 +1804,8 @@ func c11Want(t string, col C11Col, row int) any {
 		base, nonzero = x, x != 0
 	case bool:
 		base, nonzero = x, x
+	case time.Time:
+		base, nonzero = x.UTC().Format(time.RFC3339Nano), !x.IsZero()
 	}
 	return c11ValidWrap(t, base, nonzero)
 }
@@ -1733,7 +1921,11 @@ var c11NamedFamily = []c11Named{c11NamedRow0(), c11NamedRow1(), c11NamedRow2(), 
 
 // VerifC11GenRows draws a rows case for one of the given session kinds.
 func VerifC11GenRows(sessions []string) func(rt *rapid.T) C11RowsCase {
-	leafTypes := []string{"i64", "i64", "int", "str", "str", "f64", "bool", "byt", "pi64", "pstr", "nstr", "ni64"}
+	leafTypes := []string{"i64", "i64", "int", "str", "str", "f64", "bool", "byt", "pi64", "pstr", "nstr", "ni64", "i32", "u64", "tm", "ppi64"}
+	inPackage := false
+	for _, s := range sessions {
+		inPackage = inPackage || s == "conn"
+	}
 	colKinds := []string{"i64", "str", "f64", "bool", "byt"}
 	return func(rt *rapid.T) C11RowsCase {
 		c := C11RowsCase{
@@ -1749,11 +1941,27 @@ func VerifC11GenRows(sessions []string) func(rt *rapid.T) C11RowsCase {
 		case mr == 707:
 			c.NRows = 10000
 		}
+		// a value that may not fit its destination in some row(s) of the result: NULL
+		// for a plain field / element, a text in a numeric or boolean column, a number
+		// delivered as text (three fair bits: rapid's ranges favour small values)
+		unsc := rapid.Bool().Draw(rt, "unsc1") && rapid.Bool().Draw(rt, "unsc2") && rapid.Bool().Draw(rt, "unsc3")
+		if unsc && !c.Single && c.NRows < 255 {
+			c.NRows = rapid.IntRange(1, 5).Draw(rt, "nrows-unsc")
+		}
 		c.ElemPtr = !c.Single && rapid.Bool().Draw(rt, "elemptr")
 		c.Cd = rapid.IntRange(0, 19).Draw(rt, "ctxdone") == 11 && c.Ctx
 		c.W = rapid.IntRange(0, 3).Draw(rt, "warmup") == 0
 		c.Log = rapid.SampledFrom([]string{"", "", "off", "off", "stmtoff"}).Draw(rt, "log")
 		c.QF = rapid.IntRange(0, 19).Draw(rt, "queryfault") == 7
+		if c.QF && (c.Sess == "stmt" || c.Sess == "txstmt") && rapid.Bool().Draw(rt, "fault-at-prepare") {
+			c.PF = true
+		}
+		if !c.QF && rapid.IntRange(0, 15).Draw(rt, "argshape") == 6 {
+			c.AS = rapid.SampledFrom([]string{"two", "two", "odd"}).Draw(rt, "argshape-kind")
+		}
+		if inPackage && rapid.Bool().Draw(rt, "nodb1") && rapid.Bool().Draw(rt, "nodb2") && rapid.Bool().Draw(rt, "nodb3") && rapid.Bool().Draw(rt, "nodb4") {
+			c.Sess = rapid.SampledFrom([]string{"nodb", "nodbstmt", "nodbmysql"}).Draw(rt, "nodb-sess")
+		}
 		if it := rapid.IntRange(0, 15).Draw(rt, "iterfault"); (it == 5 || it == 9) && !c.QF && !c.Cd {
 			k := 0
 			if c.NRows > 1 {
@@ -1765,8 +1973,14 @@ func VerifC11GenRows(sessions []string) func(rt *rapid.T) C11RowsCase {
 			"untagged", "untagged", "emb-untagged", "emb-tagged", "mixed", "prim", "named", "named"}).Draw(rt, "shape")
 
 		if c.Shape == "prim" {
-			c.Prim = rapid.SampledFrom([]string{"i64", "str", "f64", "bool"}).Draw(rt, "prim")
+			c.Prim = rapid.SampledFrom([]string{"i64", "str", "f64", "bool", "i32", "u64"}).Draw(rt, "prim")
 			c.Cols = []C11Col{{N: "v", T: c11LeafKinds[c.Prim], U: 0, B: rapid.Bool().Draw(rt, "raw")}}
+			if c.Cols[0].T == "i64" && rapid.IntRange(0, 5).Draw(rt, "magnitude") == 2 {
+				c.Cols[0].M = rapid.SampledFrom([]string{"zero", "max", "min", "p31", "p53"}).Draw(rt, "imag")
+			}
+			if unsc {
+				c11GenUnscannable(rt, &c, []int{0})
+			}
 			return c
 		}
 
@@ -1912,6 +2126,15 @@ func VerifC11GenRows(sessions []string) func(rt *rapid.T) C11RowsCase {
 				c.Cols[i].Z = []int{rapid.IntRange(0, c.NRows-1).Draw(rt, "nullrow")}
 			}
 		}
+		if unsc {
+			var cand []int // columns that belong to a leaf
+			for i := range c.Cols {
+				if c.Cols[i].U < 1000 {
+					cand = append(cand, i)
+				}
+			}
+			c11GenUnscannable(rt, &c, cand)
+		}
 		// magnitudes of the values
 		for i := range c.Cols {
 			if rapid.IntRange(0, 5).Draw(rt, "magnitude") != 2 {
@@ -1940,6 +2163,44 @@ func VerifC11GenRows(sessions []string) func(rt *rapid.T) C11RowsCase {
 		c11StyleNames(rt, &c, n)
 		return c
 	}
+}
+
+// c11GenUnscannable makes the value of one of the candidate columns, in one or
+// two rows of the result, a value that may not fit the destination: NULL, a
+// text that is no number (numeric / boolean columns), or the ordinary value
+// delivered as text bytes. Whether such a value can be copied (and into what) is
+// not stated; what the oracle requires of a multi-row call is in
+// VerifC11InterpRows (judgeUnfit).
+func c11GenUnscannable(rt *rapid.T, c *C11RowsCase, cand []int) {
+	if len(cand) == 0 || c.NRows == 0 {
+		return
+	}
+	i := cand[rapid.IntRange(0, len(cand)-1).Draw(rt, "unsc-col")]
+	kinds := []string{"null"}
+	switch c.Cols[i].T {
+	case "i64", "f64", "bool":
+		kinds = []string{"null", "null", "text", "text", "numtext"}
+	}
+	k := rapid.SampledFrom(kinds).Draw(rt, "unsc-kind")
+	rows := []int{rapid.IntRange(0, c.NRows-1).Draw(rt, "unsc-row")}
+	if c.NRows > 1 && rapid.Bool().Draw(rt, "unsc-two") {
+		if r2 := rapid.IntRange(0, c.NRows-1).Draw(rt, "unsc-row2"); r2 != rows[0] {
+			rows = append(rows, r2)
+		}
+	}
+	switch k {
+	case "null":
+		for _, r := range rows {
+			if !c11IsNull(c.Cols[i], r) {
+				c.Cols[i].Z = append(c.Cols[i].Z, r)
+			}
+		}
+	case "text":
+		c.Cols[i].X = rows
+	case "numtext":
+		c.Cols[i].Y = rows
+	}
+	c.Unsc = k
 }
 
 // c11NameStyles spell the i-th tag / column name. A column is always spelled
@@ -2022,49 +2283,66 @@ func VerifC11RowsCtx(c C11RowsCase) context.Context {
 	return ctx
 }
 
+// VerifC11RowsArgs are the arguments a rows case hands to its query call (the
+// query text has one placeholder).
+func VerifC11RowsArgs(c C11RowsCase) []any {
+	switch c.AS {
+	case "two":
+		return []any{1, "one too many"}
+	case "odd":
+		return []any{map[string]int{"k": 1}}
+	}
+	return []any{1}
+}
+
 func c11CallSession(c C11RowsCase, s Session, v any) error {
 	ctx := VerifC11RowsCtx(c)
+	args := VerifC11RowsArgs(c)
 	switch {
 	case c.Single && !c.Partial && c.Ctx:
-		return s.QueryRowCtx(ctx, v, c11Query, 1)
+		return s.QueryRowCtx(ctx, v, c11Query, args...)
 	case c.Single && !c.Partial:
-		return s.QueryRow(v, c11Query, 1)
+		return s.QueryRow(v, c11Query, args...)
 	case c.Single && c.Ctx:
-		return s.QueryRowPartialCtx(ctx, v, c11Query, 1)
+		return s.QueryRowPartialCtx(ctx, v, c11Query, args...)
 	case c.Single:
-		return s.QueryRowPartial(v, c11Query, 1)
+		return s.QueryRowPartial(v, c11Query, args...)
 	case !c.Partial && c.Ctx:
-		return s.QueryRowsCtx(ctx, v, c11Query, 1)
+		return s.QueryRowsCtx(ctx, v, c11Query, args...)
 	case !c.Partial:
-		return s.QueryRows(v, c11Query, 1)
+		return s.QueryRows(v, c11Query, args...)
 	case c.Ctx:
-		return s.QueryRowsPartialCtx(ctx, v, c11Query, 1)
+		return s.QueryRowsPartialCtx(ctx, v, c11Query, args...)
 	default:
-		return s.QueryRowsPartial(v, c11Query, 1)
+		return s.QueryRowsPartial(v, c11Query, args...)
 	}
 }
 
 func c11CallStmt(c C11RowsCase, s StmtSession, v any) error {
 	ctx := VerifC11RowsCtx(c)
+	args := VerifC11RowsArgs(c)
 	switch {
 	case c.Single && !c.Partial && c.Ctx:
-		return s.QueryRowCtx(ctx, v, 1)
+		return s.QueryRowCtx(ctx, v, args...)
 	case c.Single && !c.Partial:
-		return s.QueryRow(v, 1)
+		return s.QueryRow(v, args...)
 	case c.Single && c.Ctx:
-		return s.QueryRowPartialCtx(ctx, v, 1)
+		return s.QueryRowPartialCtx(ctx, v, args...)
 	case c.Single:
-		return s.QueryRowPartial(v, 1)
+		return s.QueryRowPartial(v, args...)
 	case !c.Partial && c.Ctx:
-		return s.QueryRowsCtx(ctx, v, 1)
+		return s.QueryRowsCtx(ctx, v, args...)
 	case !c.Partial:
-		return s.QueryRows(v, 1)
+		return s.QueryRows(v, args...)
 	case c.Ctx:
-		return s.QueryRowsPartialCtx(ctx, v, 1)
+		return s.QueryRowsPartialCtx(ctx, v, args...)
 	default:
-		return s.QueryRowsPartial(v, 1)
+		return s.QueryRowsPartial(v, args...)
 	}
 }
+
+// c11NoDB: the session kind is a connection that cannot obtain its *sql.DB.
+func c11NoDB(sess string) bool { return sess == "nodb" || sess == "nodbstmt" || sess == "nodbmysql" }
 
 // C11RowsSessions are the session kinds of the in-package unit.
 var C11RowsSessions = []string{"conn", "conn", "tx", "stmt", "txstmt", "rawtx"}
@@ -2074,6 +2352,22 @@ func c11RunQuery(c C11RowsCase, db *sql.DB, v any) error {
 	switch c.Sess {
 	case "conn":
 		return c11CallSession(c, conn, v)
+	case "nodb", "nodbstmt", "nodbmysql":
+		bad := NewConn(c11NoDriverName, c11NoDriverDSN)
+		if c.Sess == "nodbmysql" {
+			bad = NewMySQL(c11BadMySQLDSN)
+		}
+		// an Exec on such a connection: nothing stated, must not panic (a panic ends the call)
+		_, _ = bad.Exec("update t set a = a + 1 where id = ?", 1)
+		if c.Sess == "nodbstmt" {
+			st, err := bad.Prepare(c11Query)
+			if err != nil {
+				return err
+			}
+			defer st.Close()
+			return c11CallStmt(c, st, v)
+		}
+		return c11CallSession(c, bad, v)
 	case "stmt":
 		st, err := conn.Prepare(c11Query)
 		if err != nil {
@@ -2082,7 +2376,12 @@ func c11RunQuery(c C11RowsCase, db *sql.DB, v any) error {
 		defer st.Close()
 		return c11CallStmt(c, st, v)
 	case "rawtx":
-		tx, err := db.Begin()
+		// a transaction the caller began on the handle the connection hands out
+		raw, err := conn.RawDB()
+		if err != nil || raw != db {
+			return fmt.Errorf("c11 harness: RawDB returned (%p, %v), the connection was made from %p", raw, err, db)
+		}
+		tx, err := raw.Begin()
 		if err != nil {
 			return fmt.Errorf("c11 harness: begin: %w", err)
 		}
@@ -2125,7 +2424,12 @@ func c11RunQuery(c C11RowsCase, db *sql.DB, v any) error {
 //     row (row r for element r of QueryRows; some row in full for QueryRow), leaves
 //     without a source column stay empty; extra columns are ignored (tagged only).
 //   - QueryRow* on zero rows: ErrNotFound. QueryRows* on zero rows: nothing copied.
-//   - NULL: into sql.Null* => not valid; into anything else: unspecified (database/sql).
+//   - NULL: into sql.Null* => not valid. A value that may not fit its field or element
+//     (NULL into anything else, a text in a numeric / boolean column, a number delivered
+//     as text, a value of another kind than the field), in some row(s) of the result:
+//     single-row forms unspecified (database/sql); multi-row forms: an error (whichever)
+//     or nil with every row copied in order - never nil with fewer elements than rows;
+//     with nil, the rows without such a value hold exactly their values (judgeUnfit).
 func VerifC11InterpRows(c C11RowsCase, q C11Querier) (v kit.Verdict) {
 	defer VerifC11SetLog(c.Log)()
 	f := newC11Fake()
@@ -2154,12 +2458,60 @@ func VerifC11InterpRows(c C11RowsCase, q C11Querier) (v kit.Verdict) {
 	classes := map[string]bool{"sess:" + c.Sess: true, "form:" + form: true, fmt.Sprintf("nrows:%d", c.NRows): true,
 		"log:" + c11LogNames[c.Log]: true}
 	queryFault := &c11Fault{"query"}
-	if c.QF && !c.Cd {
-		f.arm(queryFault)
+	qf := c.QF && !c.Cd && c.AS == "" && !c11NoDB(c.Sess) // the driver fails the query (or the Prepare)
+	if qf {
+		if c.PF && (c.Sess == "stmt" || c.Sess == "txstmt") {
+			f.armPrepare(queryFault)
+			classes["query-fault-at-prepare"] = true
+		} else {
+			f.arm(queryFault)
+		}
+	}
+	noDB := c11NoDB(c.Sess)
+	// judgeNoDB: the connection could not obtain a database handle, so no query ran
+	// and there is no result: nil would claim a copied (or empty) result; nothing may
+	// be copied.
+	judgeNoDB := func(err error, pv any, holdsData string) kit.Verdict {
+		classes["no-database-handle"] = true
+		switch {
+		case pv != nil:
+			return v.Failf("connection without a database handle: panic %v", pv)
+		case len(f.snapshot()) != 0:
+			return v.Failf("c11 harness: a connection without a database handle reached the case's server: %v", f.snapshot())
+		case err == nil:
+			return v.Failf("the connection cannot obtain a database handle, no query ran, but the call returned a nil error")
+		case holdsData != "":
+			return v.Failf("the connection cannot obtain a database handle, no query ran, but the destination holds data: %s", holdsData)
+		}
+		return v
+	}
+	// judgeArgs: the call handed arguments that do not fit the query's single
+	// placeholder. Whether that is an error is not stated (with statement logging
+	// on the arguments are rejected before the driver sees the query, otherwise
+	// the driver decides). A call that returned an error without a query reaching
+	// the driver has no result: nothing may be copied. ok = the case ends here.
+	judgeArgs := func(err error, holdsData string) (kit.Verdict, bool) {
+		if c.AS == "" {
+			return v, false
+		}
+		classes["args:"+c.AS] = true
+		if err == nil {
+			return v, false // accepted: judged in full like any other call
+		}
+		for _, e := range f.snapshot() {
+			if strings.HasSuffix(e, "query") {
+				return v, false
+			}
+		}
+		classes["args-rejected-before-the-driver"] = true
+		if holdsData != "" {
+			return v.Failf("arguments %v rejected with %q before a query reached the driver, but the destination holds data: %s", VerifC11RowsArgs(c), err, holdsData), true
+		}
+		return v, true
 	}
 	// row-iteration fault: the query succeeds, the driver serves iterK rows and
 	// then fails. nrows is the number of rows a single-row form can have seen.
-	iter := c.It > 0 && !c.QF && !c.Cd
+	iter := c.It > 0 && !qf
 	iterK := c.It - 1
 	nrows := c.NRows
 	if iter {
@@ -2225,6 +2577,60 @@ func VerifC11InterpRows(c C11RowsCase, q C11Querier) (v kit.Verdict) {
 		}
 		return v
 	}
+	// judgeUnfit judges a MULTI-row call on a result in which some row holds a
+	// value that may not fit its destination (NULL for a plain field or element, a
+	// text in a numeric column, a value of another kind than the field). Whether
+	// such a value can be copied is not stated, so an error - whichever - is
+	// accepted, and then nothing else is judged. What the statement does fix: a nil
+	// result says the result was copied into the destination, i.e. every row, in
+	// order; a row all of whose values are ordinary then holds exactly its values.
+	// A nil result with fewer elements than rows (rows silently dropped) is a
+	// violation, and so is nil after a failed row iteration or, in the strict
+	// form, with fewer columns than fields.
+	// cleanRowsDiff compares the elements of the ordinary rows (count, first difference).
+	judgeUnfit := func(err error, nElems int, strictShort bool, what string, cleanRowsDiff func() (int, string)) kit.Verdict {
+		classes["unfit-value/multi"] = true
+		if c.Unsc != "" {
+			classes["unfit-value:"+c.Unsc+"/multi"] = true
+		}
+		if err != nil {
+			classes["unfit-value/multi=>error"] = true
+			v.Excluded = true
+			return v
+		}
+		switch {
+		case iter:
+			return v.Failf("multi-row form: the driver failed the row iteration after %d of %d rows with %q but the call returned nil (%d elements; %s)", iterK, c.NRows, f.iterErr, nElems, what)
+		case strictShort && c.NRows > 0:
+			return v.Failf("strict multi-row form, %d columns %v for more fields: no error (%s)", len(c.Cols), c11Short(f.cols), what)
+		case nElems != c.NRows:
+			return v.Failf("multi-row form: the result has %d rows (%s) but the call returned nil with a destination of %d element(s): rows were dropped without an error", c.NRows, what, nElems)
+		}
+		n, d := cleanRowsDiff()
+		if d != "" {
+			return v.Failf("multi-row form returned nil for a result of %d rows (%s): %s", c.NRows, what, d)
+		}
+		classes["unfit-value/multi=>nil-and-complete"] = true
+		if n > 0 {
+			classes["unfit-value/multi=>ordinary-rows-verified"] = true
+		}
+		return v
+	}
+	// unfitDesc lists the values of column col that are not ordinary.
+	unfitDesc := func(col C11Col, into string) string {
+		var parts []string
+		for r := 0; r < c.NRows && len(parts) < 4; r++ {
+			switch {
+			case c11IsNull(col, r):
+				parts = append(parts, fmt.Sprintf("row %d: NULL", r))
+			case !c11OrdinaryValue(col, r):
+				parts = append(parts, fmt.Sprintf("row %d: %T %s", r, c11DriverValue(col, r), c11Short(c11DriverValue(col, r))))
+			case !c11Fits(strings.TrimPrefix(into[strings.LastIndex(into, " ")+1:], "[]"), col, r):
+				parts = append(parts, fmt.Sprintf("row %d: %v (out of range)", r, c11DriverValue(col, r)))
+			}
+		}
+		return fmt.Sprintf("column %q (%s values) -> %s: %s", c11Short(col.N), col.T, into, strings.Join(parts, ", "))
+	}
 	defer func() {
 		for k := range classes {
 			v.Classes = append(v.Classes, k)
@@ -2256,19 +2662,27 @@ func VerifC11InterpRows(c C11RowsCase, q C11Querier) (v kit.Verdict) {
 			dst = reflect.New(reflect.SliceOf(et))
 		}
 		err, pv := call(dst.Interface())
-		if c.QF && !c.Cd {
-			holds := ""
+		primHolds := func() string {
 			if c.Single {
 				if x := c11Norm(c.Prim, dst.Elem()); x != nil {
-					holds = fmt.Sprint(x)
+					return fmt.Sprint(x)
 				}
 			} else if dst.Elem().Len() != 0 {
-				holds = fmt.Sprintf("%d elements", dst.Elem().Len())
+				return fmt.Sprintf("%d elements", dst.Elem().Len())
 			}
-			return judgeQueryFault(err, pv, holds)
+			return ""
+		}
+		if noDB {
+			return judgeNoDB(err, pv, primHolds())
+		}
+		if qf {
+			return judgeQueryFault(err, pv, primHolds())
 		}
 		if pv != nil {
 			return v.Failf("primitive destination: panic %v", pv)
+		}
+		if jv, done := judgeArgs(err, primHolds()); done {
+			return jv
 		}
 		if c.Cd && c.Ctx && err != nil {
 			// the statement says nothing about contexts: an error under a cancelled
@@ -2276,6 +2690,43 @@ func VerifC11InterpRows(c C11RowsCase, q C11Querier) (v kit.Verdict) {
 			classes["ctx-cancelled=>error"] = true
 			v.Excluded = true
 			return v
+		}
+		if col.M != "" {
+			classes["magnitude:"+col.M] = true
+		}
+		if len(col.Z)+len(col.X)+len(col.Y) > 0 || !c11AllFit(c.Prim, col, c.NRows) {
+			// NULL / a text that is no number / a number as text / a number outside the range of the
+			// element type for a plain value: whether it can be copied is not stated
+			classes["unfit-value"] = true
+			if !c11AllFit(c.Prim, col, c.NRows) {
+				classes["unfit-value:out-of-range"] = true
+			}
+			if c.Single {
+				classes["unspecified:unfit-value/single"] = true
+				v.Excluded = true
+				return v
+			}
+			sl := dst.Elem()
+			return judgeUnfit(err, sl.Len(), false, unfitDesc(col, "[]"+c.Prim), func() (int, string) {
+				n := 0
+				for r := 0; r < c.NRows; r++ {
+					if !c11OrdinaryValue(col, r) || !c11Fits(c.Prim, col, r) {
+						continue
+					}
+					n++
+					ev := sl.Index(r)
+					if c.ElemPtr {
+						if ev.IsNil() {
+							return n, fmt.Sprintf("element %d is a nil pointer", r)
+						}
+						ev = ev.Elem()
+					}
+					if got, want := c11Norm(c.Prim, ev), c11Want(c.Prim, col, r); !reflect.DeepEqual(got, want) {
+						return n, fmt.Sprintf("element %d is %s, row %d has %s", r, c11Short(got), r, c11Short(want))
+					}
+				}
+				return n, ""
+			})
 		}
 		if iter && (!c.Single || iterK == 0) {
 			holds := ""
@@ -2426,6 +2877,12 @@ func VerifC11InterpRows(c C11RowsCase, q C11Querier) (v kit.Verdict) {
 		if len(col.Z) > 0 && !c11Nullable(l.T) && unspecified == "" {
 			unspecified = "null-into-non-nullable"
 		}
+		if len(col.X)+len(col.Y) > 0 && unspecified == "" {
+			unspecified = "text-value-in-numeric-column"
+		}
+		if c11LeafKinds[l.T] == col.T && !c11AllFit(l.T, col, c.NRows) && unspecified == "" {
+			unspecified = "value-out-of-range-for-field"
+		}
 		if len(col.Z) > 0 && c11Nullable(l.T) {
 			classes["null-into-Null*"] = true
 		}
@@ -2551,7 +3008,7 @@ func VerifC11InterpRows(c C11RowsCase, q C11Querier) (v kit.Verdict) {
 	}
 	err, pv := call(dst.Interface())
 
-	if c.QF && !c.Cd {
+	structHolds := func() string {
 		holds := ""
 		if pv == nil {
 			if c.Single {
@@ -2564,9 +3021,26 @@ func VerifC11InterpRows(c C11RowsCase, q C11Querier) (v kit.Verdict) {
 				holds = fmt.Sprintf("%d elements", dst.Elem().Len())
 			}
 		}
-		return judgeQueryFault(err, pv, holds)
+		return holds
 	}
-	if unspecified != "" {
+	if noDB {
+		return judgeNoDB(err, pv, structHolds())
+	}
+	if qf {
+		return judgeQueryFault(err, pv, structHolds())
+	}
+	if pv == nil {
+		if jv, done := judgeArgs(err, structHolds()); done {
+			return jv
+		}
+	}
+	// a value that may not fit its field (the mapping itself is determined): the
+	// multi-row forms are judged by judgeUnfit, the single-row forms stay unspecified
+	unfitValue := unspecified == "null-into-non-nullable" || unspecified == "value-kind-differs-from-field-type" || unspecified == "text-value-in-numeric-column" || unspecified == "value-out-of-range-for-field"
+	if unfitValue {
+		classes["unfit-value"] = true
+	}
+	if unspecified != "" && !(unfitValue && !c.Single) {
 		classes["unspecified:"+unspecified] = true
 		if pv != nil {
 			classes["unspecified-panicked:"+unspecified] = true
@@ -2602,7 +3076,7 @@ func VerifC11InterpRows(c C11RowsCase, q C11Querier) (v kit.Verdict) {
 		return out, ""
 	}
 	got, bad := elems()
-	if bad != "" {
+	if bad != "" && !(unfitValue && err != nil) {
 		return v.Failf("%s", bad)
 	}
 	allEmpty := func() (bool, string) {
@@ -2633,6 +3107,55 @@ func VerifC11InterpRows(c C11RowsCase, q C11Querier) (v kit.Verdict) {
 	}
 
 	// ---------------- oracle
+	if unfitValue { // multi-row form
+		what := unspecified
+		for i, l := range leaves {
+			if src[i] < 0 {
+				continue
+			}
+			col := c.Cols[src[i]]
+			if c11LeafKinds[l.T] != col.T {
+				what = fmt.Sprintf("column %q (%s values) -> leaf %d of type %s", c11Short(col.N), col.T, i, l.T)
+				break
+			}
+			if (len(col.Z) > 0 && !c11Nullable(l.T)) || len(col.X)+len(col.Y) > 0 || !c11AllFit(l.T, col, c.NRows) {
+				what = unfitDesc(col, fmt.Sprintf("leaf %d of type %s", i, l.T))
+				break
+			}
+		}
+		rowOrdinary := func(r int) bool {
+			for i, l := range leaves {
+				if src[i] < 0 {
+					continue
+				}
+				col := c.Cols[src[i]]
+				switch {
+				case c11LeafKinds[l.T] != col.T:
+					return false
+				case c11IsNull(col, r) && !c11Nullable(l.T):
+					return false
+				case c11InRows(col.X, r) || c11InRows(col.Y, r):
+					return false
+				case !c11Fits(l.T, col, r):
+					return false
+				}
+			}
+			return true
+		}
+		return judgeUnfit(err, len(got), !c.Partial && short, what, func() (int, string) {
+			n := 0
+			for r := 0; r < c.NRows; r++ {
+				if !rowOrdinary(r) {
+					continue
+				}
+				n++
+				if d := matchRow(got[r], r); d != "" {
+					return n, fmt.Sprintf("element %d (an ordinary row): %s", r, d)
+				}
+			}
+			return n, ""
+		})
+	}
 	if iter && (!c.Single || iterK == 0) {
 		holds := ""
 		if c.Single {
@@ -2723,12 +3246,131 @@ func TestVerif_C11_rows(t *testing.T) {
 }
 
 // ---------------------------------------------------------------------------
+// rule 4: destinations that are no destination shape of the statement
+// ---------------------------------------------------------------------------
+
+// C11BadDestCase: a query call whose destination is not one of the shapes the
+// statement quantifies over (pointer to a primitive / struct / slice of them
+// with exported fields). Nothing is stated about the result, so the case is
+// UNSPECIFIED and counted as excluded; it is run for panics only: a caller's
+// mistake in the destination must come back as an error value of the call, not
+// take the process down.
+type C11BadDestCase struct {
+	Kind    string `json:"k"` // see c11BadDests
+	Sess    string `json:"s"` // conn | tx | stmt
+	Single  bool   `json:"one,omitempty"`
+	Partial bool   `json:"part,omitempty"`
+	Ctx     bool   `json:"x,omitempty"`
+	NRows   int    `json:"n"`
+}
+
+type c11Unexp struct {
+	a int64
+	B string
+}
+
+type c11UnexpTagged struct {
+	a int64  `db:"a"`
+	B string `db:"b"`
+}
+
+type c11Exported struct {
+	A int64  `db:"a"`
+	B string `db:"b"`
+}
+
+// c11BadDests builds a fresh destination of each kind.
+var c11BadDests = map[string]func() any{
+	"nil":                 func() any { return nil },
+	"struct-by-value":     func() any { return c11Exported{} },
+	"slice-by-value":      func() any { return []c11Exported{} },
+	"nil-struct-pointer":  func() any { return (*c11Exported)(nil) },
+	"nil-slice-pointer":   func() any { return (*[]c11Exported)(nil) },
+	"pointer-to-map":      func() any { return &map[string]any{} },
+	"pointer-to-maps":     func() any { return &[]map[string]any{} },
+	"pointer-to-chan":     func() any { var c chan int; return &c },
+	"pointer-to-pointer":  func() any { var p *c11Exported; return &p },
+	"pointer-to-any":      func() any { var x any; return &x },
+	"struct-for-rows":     func() any { return &c11Exported{} },   // misuse for the multi-row forms only
+	"slice-for-row":       func() any { return &[]c11Exported{} }, // misuse for the single-row forms only
+	"slice-of-slices":     func() any { return &[][]int64{} },
+	"unexported-untagged": func() any { return &c11Unexp{} },
+	"unexported-tagged":   func() any { return &c11UnexpTagged{} },
+	"unexported-slice":    func() any { return &[]c11Unexp{} },
+	"unexported-tagged-slice": func() any { return &[]*c11UnexpTagged{} },
+}
+
+func c11BadDestKinds() []string {
+	var ks []string
+	for k := range c11BadDests {
+		ks = append(ks, k)
+	}
+	sort.Strings(ks)
+	return ks
+}
+
+func c11EnumerateBadDests(yield func(C11BadDestCase) bool) {
+	for _, k := range c11BadDestKinds() {
+		for _, sess := range []string{"conn", "tx", "stmt"} {
+			for _, n := range []int{0, 1, 2} {
+				for form := 0; form < 8; form++ {
+					c := C11BadDestCase{Kind: k, Sess: sess, NRows: n, Single: form&1 != 0, Partial: form&2 != 0, Ctx: form&4 != 0}
+					if !yield(c) {
+						return
+					}
+				}
+			}
+		}
+	}
+}
+
+func c11InterpBadDest(c C11BadDestCase) (v kit.Verdict) {
+	mk, ok := c11BadDests[c.Kind]
+	if !ok {
+		return v.Failf("c11 harness: unknown destination kind %q", c.Kind)
+	}
+	f := newC11Fake()
+	f.cols = []string{"a", "b"}
+	for r := 0; r < c.NRows; r++ {
+		f.rows = append(f.rows, []driver.Value{int64(r + 1), fmt.Sprintf("r%d", r)})
+	}
+	db := sql.OpenDB(c11Connector{f})
+	defer db.Close()
+	rc := C11RowsCase{Sess: c.Sess, Single: c.Single, Partial: c.Partial, Ctx: c.Ctx}
+	form := "rows"
+	if c.Single {
+		form = "row"
+	}
+	v.Classes = []string{"dest:" + c.Kind, "sess:" + c.Sess, "form:" + form, fmt.Sprintf("nrows:%d", c.NRows)}
+	var err error
+	var pv any
+	func() {
+		defer func() { pv = recover() }()
+		err = c11RunQuery(rc, db, mk())
+	}()
+	if pv != nil {
+		return v.Failf("destination %s (%T), %s form on %s, %d row(s): the call panicked instead of returning an error: %v", c.Kind, mk(), form, c.Sess, c.NRows, pv)
+	}
+	if err != nil {
+		v.Classes = append(v.Classes, "bad-destination=>error")
+	} else {
+		v.Classes = append(v.Classes, "bad-destination=>nil")
+	}
+	v.Excluded = true // nothing stated about the result
+	return v
+}
+
+func TestVerif_C11_baddest(t *testing.T) {
+	kit.Enumerate(t, "C11", "dest-invalid", c11EnumerateBadDests, c11InterpBadDest)
+}
+
+// ---------------------------------------------------------------------------
 // rule 3: a history of calls on ONE connection (its circuit breaker may shed)
 // ---------------------------------------------------------------------------
 
 // C11HistOp is one call on the shared connection.
 type C11HistOp struct {
-	K   string `json:"k"`             // tx | txctx | exec | query
+	K   string `json:"k"`             // tx | txctx | exec | query | prep (Prepare on the connection, then Exec on the prepared statement; a connection without Prepare: like exec)
 	F   bool   `json:"f,omitempty"`   // the driver fails the statement (exec / query / the Exec inside the transaction, whose error the body returns)
 	Out string `json:"o,omitempty"`   // tx: outcome of the body after its statement: nil | err | panic
 	FC  bool   `json:"fc,omitempty"`  // tx: the driver fails Commit
@@ -2790,7 +3432,7 @@ func VerifC11GenHist(rt *rapid.T) C11HistCase {
 	c.Pend = rapid.IntRange(0, 3).Draw(rt, "pending") == 1
 	n := rapid.IntRange(1, 12).Draw(rt, "nops")
 	for i := 0; i < n; i++ {
-		op := C11HistOp{K: rapid.SampledFrom([]string{"tx", "tx", "txctx", "txctx", "exec", "query"}).Draw(rt, "kind")}
+		op := C11HistOp{K: rapid.SampledFrom([]string{"tx", "tx", "txctx", "txctx", "exec", "query", "prep"}).Draw(rt, "kind")}
 		op.F = rapid.IntRange(0, 4).Draw(rt, "fault") == 3
 		if op.K == "tx" || op.K == "txctx" {
 			op.Out = rapid.SampledFrom([]string{"nil", "nil", "nil", "err", "panic"}).Draw(rt, "out")
@@ -2951,6 +3593,22 @@ func VerifC11InterpHist(t *testing.T, c C11HistCase, mk func(db *sql.DB) C11Hist
 						f.arm(stmtErr)
 					}
 					err = conn.QueryRow(&dst, "select a from t where id = ?", i)
+				case "prep":
+					if op.F {
+						f.arm(stmtErr)
+					}
+					pc, ok := conn.(interface {
+						Prepare(query string) (StmtSession, error)
+					})
+					if !ok {
+						_, err = conn.Exec("update t set a = a + 1 where id = ?", i)
+						break
+					}
+					var ps StmtSession
+					if ps, err = pc.Prepare("update t set a = a + 1 where id = ?"); err == nil {
+						_, err = ps.Exec(i)
+						_ = ps.Close()
+					}
 				case "tx":
 					err = conn.Transact(func(s Session) error { return body(context.Background(), s) })
 				case "txctx":
@@ -3003,18 +3661,22 @@ func VerifC11InterpHist(t *testing.T, c C11HistCase, mk func(db *sql.DB) C11Hist
 			if shedCount > 0 {
 				seenAfterShed++
 			}
-			if panicked && !(outcome == "panic" && op.K != "exec" && op.K != "query") {
+			if panicked && !(outcome == "panic" && op.K != "exec" && op.K != "query" && op.K != "prep") {
 				fail = fmt.Sprintf("%s: the caller got a panic (%s)", what, desc)
 				return
 			}
 			// a panicking transaction body: "the caller learns of it (an error or the panic)" -
 			// a panic that reaches the caller after the rollback is as good as an error
 			switch op.K {
-			case "exec", "query":
+			case "exec", "query", "prep":
 				classes["executed:"+op.K] = true
+				wantEv := op.K
+				if op.K == "prep" {
+					wantEv = "exec"
+				}
 				switch {
-				case !c11SameEvents(evs, []string{op.K}):
-					fail = fmt.Sprintf("%s: driver history of the call is not [%s] (%s)", what, op.K, desc)
+				case !c11SameEvents(evs, []string{wantEv}):
+					fail = fmt.Sprintf("%s: driver history of the call is not [%s] (%s)", what, wantEv, desc)
 				case op.F && armedLeft != nil:
 					fail = fmt.Sprintf("c11 harness: the armed fault was not consumed (%s: %s)", what, desc)
 				case op.F && !errors.Is(err, stmtErr):
